@@ -1715,6 +1715,169 @@ func monC12(c *child.Ctx, replay json.RawMessage) {
 		}
 	}
 	relational = false
+	// what a serial line in "cooked" mode does to binary data: carriage returns turned
+	// into line feeds (or the other way round), the top bit stripped, XON/XOFF replaced -
+	// a victim that contains such bytes, with some or all of them rewritten
+	nLine := c.Share(c.Pick(240, 4800))
+	for i := 0; i < nLine; i++ {
+		from, to := []byte{0x0d, 0x0a, 0x11, 0x13, 0x7f}[i%5], []byte{0x0a, 0x0d, 0x00, 0x00, 0xff}[i%5]
+		t := gen.PickType(r)
+		pl := gen.RandPayload(r, t, r.Range(12, 80), 0)
+		for j := 3; j < len(pl); j++ {
+			if pl[j] == to || pl[j] == 0xd3 {
+				pl[j] ^= 0x44
+			}
+		}
+		nmark := r.Range(1, 5)
+		for j := 0; j < nmark; j++ {
+			pl[r.Range(3, len(pl)-1)] = from
+		}
+		fb := ref.Frame(pl)
+		vf := gen.Seg{Kind: "frame", Type: ref.TypeOf(fb), Bytes: fb}
+		s := gen.Stream{gen.RandFrame(r), vf}
+		if i%2 == 0 {
+			s = append(s, gen.Junk(r))
+		}
+		s = append(s, gen.RandFrame(r))
+		// all of them rewritten, and each subset of up to the first three
+		var at []int
+		for j := 3; j < len(fb)-3; j++ {
+			if fb[j] == from {
+				at = append(at, j)
+			}
+		}
+		for mask := 1; mask < 1<<uint(len(at)) && mask < 16; mask++ {
+			gg := append([]byte(nil), fb...)
+			for b, pos := range at {
+				if mask>>uint(b)&1 == 1 || mask == 15 {
+					gg[pos] = to
+				}
+			}
+			if bytes.Equal(gg, fb) || ref.IsFrame(gg) {
+				continue
+			}
+			runFault(s, 1, gg, fmt.Sprintf("bytes %#02x of the victim rewritten to %#02x (subset %d of %d places)", from, to, mask, len(at)))
+			c.Count("line_discipline_faults", 1)
+		}
+	}
+	// a frame sent twice, the second copy damaged - in its CRC bytes only, in one payload
+	// bit only: the first copy being fine says nothing about the second
+	nTwice := c.Share(c.Pick(240, 4800))
+	for i := 0; i < nTwice; i++ {
+		var vf gen.Seg
+		for {
+			vf = gen.RandFrame(r)
+			if len(vf.Bytes) >= 9 && len(vf.Bytes) <= 120 {
+				break
+			}
+		}
+		s := gen.Stream{vf, vf, gen.RandFrame(r)}
+		if i%3 == 0 {
+			s = gen.Stream{vf, gen.Junk(r), vf}
+		}
+		fb := vf.Bytes
+		for variant := 0; variant < 5; variant++ {
+			gg := append([]byte(nil), fb...)
+			n := len(gg)
+			switch variant {
+			case 0:
+				gg[n-1] ^= 1 << uint(r.Intn(8))
+			case 1:
+				gg[n-2] ^= byte(1 + r.Intn(255))
+			case 2:
+				gg[n-3], gg[n-2], gg[n-1] = byte(r.Intn(256)), byte(r.Intn(256)), byte(r.Intn(256))
+			case 3:
+				gg[n-3], gg[n-1] = gg[n-1], gg[n-3]
+			default:
+				gg[r.Range(5, n-4)] ^= 1 << uint(r.Intn(8))
+			}
+			if bytes.Equal(gg, fb) || ref.IsFrame(gg) {
+				continue
+			}
+			victimAt := 1
+			if i%3 == 0 {
+				victimAt = 2
+			}
+			runFault(s, victimAt, gg, fmt.Sprintf("second copy of a frame that was sent twice, damaged (variant %d)", variant))
+			c.Count("faults_in_the_second_copy_of_a_repeated_frame", 1)
+		}
+	}
+	// the whole input already waiting in a deep input queue and a consumer that comes for
+	// each message 30-60 ms late (back-pressure from both sides): a damaged frame next to
+	// other data is still delivered on its own, the other data on its own
+	nBack := c.Share(c.Pick(64, 1280))
+	for i := 0; i < nBack; i++ {
+		var vf gen.Seg
+		for {
+			vf = gen.RandFrame(r)
+			if len(vf.Bytes) >= 9 && len(vf.Bytes) <= 80 {
+				break
+			}
+		}
+		gg := append([]byte(nil), vf.Bytes...)
+		gg[r.Range(5, len(gg)-1)] ^= 1 << uint(r.Intn(8))
+		hasD3 := false
+		for _, b := range gg[1:] {
+			if b == 0xd3 {
+				hasD3 = true
+			}
+		}
+		if ref.IsFrame(gg) || hasD3 {
+			continue
+		}
+		junk := gen.Seg{Kind: "junk", Type: -1, Bytes: gen.NoD3(r.Bytes(r.Range(3, 40)))}
+		victim := gen.Seg{Kind: "corrupt", Type: -1, Bytes: gg}
+		var st gen.Stream
+		switch i % 3 {
+		case 0:
+			st = gen.Stream{gen.RandFrame(r), victim, junk, gen.RandFrame(r)}
+		case 1:
+			st = gen.Stream{gen.RandFrame(r), junk, victim, gen.RandFrame(r)}
+		default:
+			st = gen.Stream{junk, victim, junk, gen.RandFrame(r), victim, junk}
+		}
+		var exp []gen.Expected
+		for _, g := range st {
+			tp := -1
+			if g.Kind == "frame" {
+				tp = g.Type
+			}
+			exp = append(exp, gen.Expected{Type: tp, Bytes: g.Bytes})
+		}
+		stall := time.Duration(r.Range(30, 60)) * time.Millisecond
+		k := streamCase{Input: hexs(st.Bytes()), Expect: toExp(exp), StallMs: stall.Milliseconds(), Note: "input already queued, consumer late for every message"}
+		cj := c.BeginV(k)
+		input := st.Bytes()
+		in := make(chan byte, len(input)+1)
+		for _, b := range input {
+			in <- b
+		}
+		close(in)
+		out := make(chan handler.Message)
+		h := handler.New(fixedStart, slog.LevelInfo)
+		go h.HandleMessages(in, out)
+		var msgs []handler.Message
+		done := make(chan struct{})
+		go func() {
+			for {
+				sleepTicking(stall)
+				m, ok := <-out
+				if !ok {
+					break
+				}
+				msgs = append(msgs, m)
+				endless(len(msgs), len(input), "stream handler with a late consumer")
+				tick()
+			}
+			close(done)
+		}()
+		waitOrHangGone(done, caseWatchdog, "stream handler with its input queued and a late consumer did not finish")
+		if why := compareSeq(msgs, k.Expect); why != "" {
+			c.Violate("corruption-not-contained", k.Note+": "+why, cj)
+		}
+		c.Count("damaged_frames_next_to_other_data_under_back_pressure", 1)
+		c.Eval(ref.Hash64(cj), true)
+	}
 	// the shortest frames (a message of 1, 2 or 3 bytes) as victims, followed by other
 	// data, by a frame, or by the end of the input; and runs of bytes set to 0xFF / 0x00
 	// from the start of the payload (a type field of all ones or all zeros)
@@ -2312,6 +2475,27 @@ func monC02(c *child.Ctx, replay json.RawMessage) {
 		cj := c.BeginV(k)
 		execC02Timed(c, k, cj)
 		c.Count("held_up_once_runs", 1)
+		c.Eval(ref.Hash64(cj), true)
+	}
+	// the consumer is held up once, for a second or two, early in a stream of six hundred
+	// to fifteen hundred tiny messages that the source keeps sending: whatever piles up
+	// inside comes out in the order it went in
+	if c.Batch%4 == 2 || c.Thorough() && c.Batch%4 == 0 {
+		var in []byte
+		for j := r.Range(600, 1500); j > 0; j-- {
+			f := gen.RandFrame(r)
+			for len(f.Bytes) > 24 {
+				f = gen.RandFrame(r)
+			}
+			in = append(in, f.Bytes...)
+			if r.Chance(1, 4) {
+				in = append(in, '\n')
+			}
+		}
+		k := streamCase{Input: hexs(in), StallMs: 1, OnceStallMs: int64(r.Range(1500, 2500)), OnceAt: r.Intn(3), OutCap: []int{0, 1, 8}[r.Intn(3)]}
+		cj := c.BeginV(k)
+		execC02Timed(c, k, cj)
+		c.Count("held_up_once_with_hundreds_of_messages_behind", 1)
 		c.Eval(ref.Hash64(cj), true)
 	}
 	// the source falls silent once, for seconds, well inside a long frame
